@@ -870,6 +870,9 @@ class Process(StateMachine, persistence.Savable, metaclass=ProcessStateMachineMe
                 finished_state = state_cls(self, result=result, successful=False)
                 raise StateEntryFailed(finished_state)
 
+        if self.future().cancelled():
+            # Cancelled but finished before the kill could be enacted
+            self._future = persistence.SavableFuture(loop=self._loop)
         self.future().set_result(self.outputs)
 
     @super_check
@@ -905,6 +908,9 @@ class Process(StateMachine, persistence.Savable, metaclass=ProcessStateMachineMe
             msg_txt = msg[MESSAGE_TEXT_KEY] or ''
 
         self.set_status(msg_txt)
+        if self.future().cancelled():
+            # Killed through the future being cancelled, replace it so that the outcome can be reported
+            self._future = persistence.SavableFuture(loop=self._loop)
         self.future().set_exception(exceptions.KilledError(msg_txt))
 
     @super_check
